@@ -814,7 +814,8 @@ func (r *treeRun) apply(op Op) string {
 			if n > 60 && i%16 != 0 && i != n-1 {
 				r.cheapKey = &k
 			}
-			msg := r.doAdd(in, k, false)
+			// op.B selects how the run inserts: Add, Replace, or alternating
+			msg := r.doAdd(in, k, op.B%3 == 1 || op.B%3 == 2 && i%2 == 1)
 			r.cheapKey = nil
 			if msg != "" {
 				return msg
@@ -935,7 +936,7 @@ func (r *treeRun) apply(op Op) string {
 				}
 				k = leaf.K - left/2
 			}
-			if msg := r.doAdd(in, k, false); msg != "" {
+			if msg := r.doAdd(in, k, (op.B/3)%3 == 1 || (op.B/3)%3 == 2 && i%2 == 1); msg != "" {
 				return msg
 			}
 		}
